@@ -91,6 +91,11 @@ Definition candidates (A : mat) (b lb ub : vec) (n : nat) : res (list vec) :=
   let m := length A in
   collect (flat_map (fun idx => map (candidate A b lb ub n idx) (patterns (n - m))) (combs (n - m) (seq 0 n))).
 
+(* some m = length A columns of A are linearly independent: decided by elimination on every m-subset of the columns *)
+Definition has_basis_b (A : mat) (n : nat) : bool :=
+  let m := length A in
+  existsb (fun S => match solve_ge (cols A S) (vzero m) with Some _ => true | None => false end) (combs m (seq 0 n)).
+
 (* running minimum / maximum, started at ub / lb as in the code *)
 Fixpoint vmin2 (u v : vec) : vec := match u, v with a :: u', b :: v' => Qmin a b :: vmin2 u' v' | _, _ => [] end.
 Fixpoint vmax2 (u v : vec) : vec := match u, v with a :: u', b :: v' => Qmax a b :: vmax2 u' v' | _, _ => [] end.
@@ -115,6 +120,7 @@ Definition extent_upper (A : mat) (b lb ub : vec) (n k : nat) (y : vec) : Q :=
 Record case := {
   c_A : mat; c_n : nat; c_lb : vec; c_ub : vec; c_K : kmat; c_base : vec; c_b : vec;
   c_impl : res (vec * vec);               (* (Xmin, Xmax) or the raised error *)
+  c_fullrank : bool;                      (* the harness claims that the transformed capture matrix has full row rank (checked below, not trusted) *)
   c_spaced : mat;                         (* spaced solutions returned on request ([] if none) *)
   c_ylo : mat; c_yhi : mat;               (* extent certificates, one multiplier vector per source *)
   c_expect : nat;                         (* 0: in gamut (ranges expected); 1: certified outside, error='raise';
@@ -158,7 +164,9 @@ Definition verdict (c : case) : bool :=
           vclose (c_tol c) (c_tol c) mmins mins && vclose (c_tol c) (c_tol c) mmaxs maxs &&
           all_le mins maxs && in_boxob (c_tol c) mins (somesv (c_lb c)) (somesv (c_ub c)) &&
           in_boxob (c_tol c) maxs (somesv (c_lb c)) (somesv (c_ub c)) &&
-          extents_ok c 0 mins maxs (c_ylo c) (c_yhi c) && spaced_ok c
+          extents_ok c 0 mins maxs (c_ylo c) (c_yhi c) && spaced_ok c &&
+          (* full row rank, as claimed: then range_is_exact applies to this very case (Proofs/BasisCheckP.v: verdict_exact) *)
+          (negb (c_fullrank c) || has_basis_b (A' c) (c_n c))
       | Err e, Err e' => err_eqb e e'
       | _, _ => false
       end
